@@ -1124,6 +1124,11 @@ mod repr {
     fn to_f64_small(dword: DoubleWord) -> Approximation<f64, Sign> {
         const_assert!((DoubleWord::MAX as f64) < f64::MAX);
         let f = dword as f64;
+        // the cast back saturates: a float that rounded up to 2^DWORD_BITS would compare
+        // equal to DoubleWord::MAX
+        if f >= ((1 as DoubleWord) << (DoubleWord::BITS - 1)) as f64 * 2.0 {
+            return Inexact(f, Sign::Positive);
+        }
         let back = f as DoubleWord;
 
         match back.partial_cmp(&dword).unwrap() {
